@@ -1994,6 +1994,11 @@ impl Parser {
             }
         }
 
+        if type_vec.is_empty() {
+            // `[]` would accept an open list of anything and be accepted as an open list of anything
+            bail!("a list type must name the type of its elements, like `[int, str]` or `[int...]`")
+        }
+
         Ok(ListType::Mixed(type_vec))
     }
 
